@@ -77,6 +77,7 @@ type Engine struct {
 
 	spec    int
 	NoMerge bool
+	curFrame *frame
 	models  []*cachedModel
 	NoModelCache bool
 	ModelHits int
@@ -848,6 +849,9 @@ func (e *Engine) runPath(fn *ssa.Function) {
 				fmt.Fprintf(os.Stderr, "[%s] path ended: %s\n", e.Harness, r.why)
 			}
 		case targetPanic:
+			if len(r.at) > 0 {
+				stack = r.at
+			}
 			if e.Concrete {
 				e.Violations = append(e.Violations, &Violation{Harness: e.Harness, Label: "no uncaught panic", Kind: "panic", Message: "uncaught panic: " + e.panicMessage(r.v), Stack: stack})
 				return
